@@ -25,7 +25,9 @@ def _N(i, p, K, u, cx, end):
 def all_basis_def(p, K, u, cx):
     """[N_{0,p}(u) .. N_{n-1,p}(u)] on the domain [K[p], K[n]]"""
     n = len(K) - p - 1
-    end = K[n]
+    # closed-end rule only where no half-open span contains u, i.e. at the very last knot
+    # (for unclamped vectors the domain end K[n] lies inside the half-open span [K[n], K[n+1]))
+    end = K[-1]
     return [_N(i, p, K, u, cx, end) for i in range(n)]
 
 
